@@ -9,12 +9,14 @@ namespace Icinga.C04
 /-- Per-checkable invariant: never in both sets; once an ObjectHandler has run after the last write of
     active/paused, "schedulable" and "in one of the sets" coincide; once a NextCheckChangedHandler has run
     after the last write of next_check, the idle key is the attribute; and PluginCheckTask's bookkeeping:
-    running processes = helpers between spawn and `+1`, plus the outstanding balance of `+1`/`-1`. -/
+    running processes = helpers between spawn and `+1`, plus the outstanding balance of `+1`/`-1`; and a checkable in
+    the pending set has a dispatched helper that has not passed its final section yet (which will take it out again). -/
 def ChkInv (x : Chk) : Prop :=
   ¬(x.inIdle = true ∧ x.inPending = true) ∧
   (x.synced = true → (x.schedulable = true ↔ (x.inIdle = true ∨ x.inPending = true))) ∧
   (x.keySynced = true → x.inIdle = true → x.idleKey = x.nextCheck) ∧
-  (x.procs : Int) = (x.hs : Int) + x.pbal
+  (x.procs : Int) = (x.hs : Int) + x.pbal ∧
+  (x.inPending = true → 0 < x.hq + x.hx + x.hs + x.hr + x.hd)
 
 /-- Single-flight invariant: command bodies, running processes and finished processes whose result is still on its
     way — together 1 iff `m_CheckRunning`, else 0. -/
@@ -201,7 +203,7 @@ theorem inv_step (s s' : St) (a : Act) (h : Inv s) (hs : step s a = some s') : I
   | force c =>
     simp only [step] at hs; split at hs <;> simp at hs; subst hs
     exact inv_upd0 s c _ (by assumption) h (keeps_force _ (h.1 c))
-  | sched c now r e p =>
+  | sched c now i =>
     simp only [step] at hs
     split at hs
     · rename_i hen
@@ -268,9 +270,9 @@ theorem inv_run (acts : List Act) (s s' : St) (h : Inv s) (hr : run s acts = som
     · rename_i s1 hs1; exact ih s1 (inv_step s s1 a h hs1) hr
     · simp at hr
 
-/-! ### single flight (needs: no result from outside the execution) -/
+/-! ### single flight -/
 
-theorem flight_step (s s' : St) (a : Act) (hp : a.isPassive = false) (h : ∀ c, FlightInv (s.chk c))
+theorem flight_step (s s' : St) (a : Act) (h : ∀ c, FlightInv (s.chk c))
     (hs : step s a = some s') : ∀ c, FlightInv (s'.chk c) := by
   have key : ∀ (c : Nat) (x : Chk), FlightInv x → ∀ i, FlightInv ((s.upd c x).chk i) := by
     intro c x hx i; simp only [St.upd]; split
@@ -295,7 +297,7 @@ theorem flight_step (s s' : St) (a : Act) (hp : a.isPassive = false) (h : ∀ c,
   | force c =>
     simp only [step] at hs; split at hs <;> simp at hs; subst hs
     exact key c _ (by have := h c; unfold FlightInv Chk.force at *; grind)
-  | sched c now r e p =>
+  | sched c now i =>
     simp only [step] at hs
     split at hs
     · split at hs
@@ -326,7 +328,9 @@ theorem flight_step (s s' : St) (a : Act) (hp : a.isPassive = false) (h : ∀ c,
     simp only [step] at hs; split at hs <;> simp at hs; subst hs
     rename_i hg
     exact key c _ (by have := h c; have := hg.2; unfold FlightInv Chk.procResult at *; grind)
-  | passiveResult c => simp [Act.isPassive] at hp
+  | passiveResult c =>
+    simp only [step] at hs; split at hs <;> simp at hs; subst hs
+    exact key c _ (by have := h c; unfold Chk.passiveResult; exact this)
   | helperDec c =>
     simp only [step] at hs; split at hs <;> simp at hs; subst hs
     exact key c _ (by have := h c; unfold FlightInv Chk.helperDec at *; grind)
@@ -334,7 +338,7 @@ theorem flight_step (s s' : St) (a : Act) (hp : a.isPassive = false) (h : ∀ c,
     simp only [step] at hs; split at hs <;> simp at hs; subst hs
     exact key c _ (by have := h c; unfold FlightInv Chk.helperFinish Chk.idleInsert at *; grind)
 
-theorem flight_run (acts : List Act) (s s' : St) (hp : ∀ a ∈ acts, a.isPassive = false)
+theorem flight_run (acts : List Act) (s s' : St)
     (h : ∀ c, FlightInv (s.chk c)) (hr : run s acts = some s') : ∀ c, FlightInv (s'.chk c) := by
   induction acts generalizing s with
   | nil => simp [run] at hr; subst hr; exact h
@@ -342,8 +346,7 @@ theorem flight_run (acts : List Act) (s s' : St) (hp : ∀ a ∈ acts, a.isPassi
     simp only [run] at hr
     split at hr
     · rename_i s1 hs1
-      exact ih s1 (fun b hb => hp b (List.mem_cons_of_mem _ hb))
-        (flight_step s s1 a (hp a List.mem_cons_self) h hs1) hr
+      exact ih s1 (flight_step s s1 a h hs1) hr
     · simp at hr
 
 /-! ### `n` and `max` never change -/
